@@ -12,7 +12,7 @@
 //       iq/rq -> <class>;conc=<cmp>   (the same string is recorded as obs= in the op line)
 //          class = ok:<scalar|vector|matrix|string> | user-error:<class> | INTERNAL:<sanitised text>
 //          cmp   = same | na (error / cancelled query) | diff/<sameLabels>/<sameCount>/<sameValueMultiset>/<maxUlp|x>
-//                  all queries of the case are evaluated serially first and then 16-way concurrently (each twice, shuffled) in
+//                  all queries of the case are evaluated serially first and then 16-way concurrently (each `reps` = 8 times, shuffled) in
 //                  the SAME engine and storage; cmp compares the canonical results (label sets, value bits, NaN-aware, histogram hash)
 package main
 
@@ -45,6 +45,7 @@ import (
 type env struct {
 	engs    map[string]*promql.Engine
 	workers int
+	reps    int
 }
 
 func (e *env) engine(kind string, lookback int64) *promql.Engine {
@@ -379,11 +380,18 @@ func compare(a, b result) string {
 	if sameMulti {
 		for i := range a.steps {
 			va, vb := []string{}, []string{}
+			// -0 and +0 tie under float comparison: a k-selection may return either
+			nz := func(v string) string {
+				if v == "8000000000000000" {
+					return "0000000000000000"
+				}
+				return v
+			}
 			for _, e := range a.steps[i] {
-				va = append(va, e.val)
+				va = append(va, nz(e.val))
 			}
 			for _, e := range b.steps[i] {
-				vb = append(vb, e.val)
+				vb = append(vb, nz(e.val))
 			}
 			sort.Strings(va)
 			sort.Strings(vb)
@@ -574,7 +582,7 @@ func (e *env) runCase(c *h.Ctx, ops []string) {
 	}
 	// concurrent pass: every query twice, shuffled deterministically, `workers` goroutines, one engine per kind (shared pools)
 	var jobs []*query
-	for k := 0; k < 2; k++ {
+	for k := 0; k < e.reps; k++ {
 		jobs = append(jobs, qs...)
 	}
 	sh := h.NewRng(uint64(len(qs))*7919 + 17)
@@ -671,7 +679,10 @@ func main() {
 	}
 	c := h.Init()
 	defer c.Finish()
-	e := &env{engs: map[string]*promql.Engine{}, workers: 16}
+	e := &env{engs: map[string]*promql.Engine{}, workers: 16, reps: 8}
+	if v, err := strconv.Atoi(c.Extra["reps"]); err == nil && v > 0 {
+		e.reps = v
+	}
 	if v, err := strconv.Atoi(c.Extra["workers"]); err == nil && v > 0 {
 		e.workers = v
 	}
